@@ -86,7 +86,9 @@ fn check_solar_index(ctx: &Ctx, y: i32, loc: &mut Local) {
       continue;
     }
     // stepping: n in -25..=25
-    for n in -25i64..=25 {
+    // plus long jumps to fixed far targets (large |n| of either sign)
+    let far: Vec<i64> = [(40i64, 3i64), (1949, 0), (1950, 0), (5000, 9), (9999, 9)].iter().map(|(ty, ti)| (ty - y as i64) * 10 + ti - i as i64).filter(|n| n.abs() > 25).collect();
+    for n in (-25i64..=25).chain(far.into_iter()) {
       let t = i as i64 + n;
       let ty = y as i64 + t.div_euclid(10);
       let ti = t.rem_euclid(10) as usize;
@@ -214,7 +216,9 @@ fn check_lunar_year(ctx: &Ctx, t: &LunTable, tm: &Terms, y: isize, by_date: bool
       continue;
     }
     // stepping
-    for n in [-14i64, -13, -5, -1, 0, 1, 2, 12, 13, 14, 27] {
+    // plus long jumps to fixed far targets (large |n| of either sign)
+    let far: Vec<i64> = [(40i64, 1i64), (1021, 12), (5000, 6), (9990, 0)].iter().map(|(ty, ti)| (ty - y as i64) * 13 + ti - i as i64).filter(|n| n.abs() > 27).collect();
+    for n in [-14i64, -13, -5, -1, 0, 1, 2, 12, 13, 14, 27].into_iter().chain(far.into_iter()) {
       let tt = i as i64 + n;
       let ty = y as i64 + tt.div_euclid(13);
       let ti = tt.rem_euclid(13) as usize;
@@ -375,7 +379,7 @@ pub fn run(ctx: &Ctx) {
       check_solar_index(ctx, years[i], l);
     }
   });
-  ctx.subspace(&format!("civil festivals by index: {} years x indices 0..11, next(n) n in -25..25", years.len()), done, years.len() as u64 * 12);
+  ctx.subspace(&format!("civil festivals by index: {} years x indices 0..11, next(n) n in -25..25 and long jumps to (40,#3) (1949,#0) (1950,#0) (5000,#9) (9999,#9)", years.len()), done, years.len() as u64 * 12);
   // lunar festivals
   let t = LunTable::build(ctx, 0, 9999);
   let tm = Terms::build(ctx, &civ);
@@ -387,7 +391,7 @@ pub fn run(ctx: &Ctx) {
       check_lunar_year(ctx, &t, &tm, yy, (by_date_range.0..=by_date_range.1).contains(&yy) || (!ctx.quick() && yy % 50 == 0), l);
     }
   });
-  ctx.subspace(&format!("lunar festivals: {} lunar years x indices 0..14 (day, own-day lookup, next(n) for 11 step counts); every lunar date of {}..{} by date", lyears.len(), by_date_range.0, by_date_range.1), done, lyears.len() as u64 * 15);
+  ctx.subspace(&format!("lunar festivals: {} lunar years x indices 0..14 (day, own-day lookup, next(n) for 11 step counts and long jumps to (40,#1) (1021,#12) (5000,#6) (9990,#0)); every lunar date of {}..{} by date", lyears.len(), by_date_range.0, by_date_range.1), done, lyears.len() as u64 * 15);
   // legal holidays
   match holiday_records() {
     Err(e) => ctx.violation("holiday_record", "table".into(), e, vec!["htable".into()]),
